@@ -157,6 +157,10 @@ class DocGen:
                                                         "sel": None})
         return out
 
+    def structured(self, t):
+        tt = nullable(t) if is_nn(t) else t
+        return not isinstance(tt, str) or self.m.kind(tt) == "input"
+
     def g_typename(self, tname, path):
         key = "__typename"
         alias = None
@@ -174,10 +178,17 @@ class DocGen:
         if not cands:
             return self.g_typename(tname, path)
         f = c.choose(cands)
+        if c.chance(90):
+            # lean towards fields whose arguments are lists or input objects (input coercion is where
+            # validation and execution have to agree on the most cases)
+            rich = [x for x in cands if any(self.structured(a["type"]) for a in x["args"])]
+            if rich:
+                f = c.choose(rich)
+                self.features.add("structured-argument-field")
         args = []
         for a in f["args"]:
             required = is_nn(a["type"]) and a["default"] is None
-            if required or c.chance(150):
+            if required or c.chance(150) or (self.structured(a["type"]) and c.chance(128)):
                 args.append([a["name"], self.g_arg_value(a["type"], required)])
         if args:
             self.features.add("argument")
@@ -432,7 +443,7 @@ def g_variable_values(c, m, vars_, mode="valid"):
 MUTATIONS = ["weaken-variable", "perturb-literal", "drop-required-arg", "retarget-condition",
              "rename-field", "leaf-subselection", "drop-subselection", "nullable-var-in-list",
              "duplicate-key", "undeclared-variable", "unknown-argument", "weaken-inner-variable",
-             "nullable-var-deep", "nullable-var-deep"]
+             "nullable-var-deep", "nullable-var-deep", "nullable-var-deep"]
 STRUCTURAL = ["fragment-cycle", "unknown-fragment", "duplicate-definition", "root-spread"]
 
 
@@ -569,14 +580,32 @@ def mutate_document(c, m, doc):
         elif kind == "nullable-var-deep":
             # a variable of the *nullable* type of a position anywhere inside an argument literal
             # (list items, input object fields, OneOf members, bare items standing for a list of one)
+            def structured(t):
+                tt = nullable(t) if is_nn(t) else t
+                return not isinstance(tt, str) or m.kind(tt) == "input"
+
             typed = [(s, f, o) for s, f, o in _walk_typed_fields(m, tree)
-                     if any(a[1]["k"] in ("list", "obj") for a in s["args"])]
+                     if any(structured(x["type"]) for x in f["args"])]
             s, fdef, owner = c.choose(typed)
-            a = c.choose([a for a in s["args"] if a[1]["k"] in ("list", "obj")])
-            adef = next(x for x in fdef["args"] if x["name"] == a[0])
+            adef = c.choose([x for x in fdef["args"] if structured(x["type"])])
+            a = next((a for a in s["args"] if a[0] == adef["name"]), None)
+            if a is None or a[1]["k"] not in ("list", "obj"):
+                # write the argument out in full so that there are positions to put a variable in
+                lit = g5.value_to_lit(m, adef["type"], g2.g_value(c, m, adef["type"], 2, allow_null=False))
+                if c.chance(100):
+                    lit = g5.unwrap_singletons(c, m, adef["type"], lit, 128)
+                if lit["k"] not in ("list", "obj"):
+                    return None
+                if a is None:
+                    a = [adef["name"], lit]
+                    s["args"].append(a)
+                else:
+                    a[1] = lit
             pos = []
             _typed_positions(m, adef["type"], a[1], pos, a, 1)
-            holder, key, pt = c.choose(pos[1:] or pos)
+            cands = pos[1:] or pos
+            strict = [x for x in cands if is_nn(x[2])]
+            holder, key, pt = c.choose(strict if strict and c.chance(170) else cands)
             if holder[key]["k"] == "var":
                 return None
             vt = nullable(pt) if (is_nn(pt) and c.chance(200)) else pt
